@@ -136,68 +136,7 @@ func runC03(c *kit.Ctx) {
 
 	// ---- R1 ---------------------------------------------------------------
 	c.StartRule("R1", "single failure transition under failOnce", 4)
-	lit, _ := onceLiteral(fail, failOnce)
-	if lit == nil {
-		c.Bad(fail, "fail-once", fail.Pos(), "fail no longer runs its body under failOnce.Do: the failure transition can run twice", "")
-	} else {
-		c.Funcs[kit.FuncName(lit)] = true
-		for _, fn := range p.Funcs {
-			if enclosingNamed(fn).Pkg == nil || enclosingNamed(fn).Pkg.Pkg.Path() != kit.Module+"/region" {
-				continue
-			}
-			for _, call := range kit.Calls(fn, "builtin.close") {
-				if isLoadOfField(call.Common().Args[0], doneF) {
-					c.Check(fn == lit, fn, "close-done", call.Pos(), "close(c.done) inside failOnce.Do", "close(c.done) outside failOnce.Do: a second close panics, or the signal is given without failing the sent calls")
-				}
-			}
-		}
-		hasClose, hasDrain := false, false
-		var closeDone, connClose, drain ssa.Instruction
-		kit.Instrs(lit, func(in ssa.Instruction) {
-			if call, ok := in.(*ssa.Call); ok {
-				if kit.CalleeName(call) == "(net.Conn).Close" && isLoadOfField(call.Call.Value, connF) {
-					hasClose = true
-					connClose = call
-				}
-				if kit.CalleeName(call) == kit.M("region", "*client", "failSentRPCs") {
-					hasDrain = true
-					drain = call
-				}
-				if kit.CalleeName(call) == "builtin.close" && isLoadOfField(call.Call.Args[0], doneF) {
-					closeDone = call
-				}
-			}
-		})
-		// order: signal, close the connection, then drain. A sender that registers a call after
-		// the drain must find the connection closed (its write fails and it completes the call
-		// itself); draining first leaves a window in which a call is written to a live socket
-		// of a dead client and is never completed.
-		okOrder := closeDone != nil && connClose != nil && drain != nil &&
-			closeDone.Block().Dominates(connClose.Block()) && (closeDone.Block() != connClose.Block() || kit.InstrIndex(closeDone) < kit.InstrIndex(connClose)) &&
-			!kit.Reaches(drain, connClose) && kit.Reaches(connClose, drain)
-		if okOrder {
-			// no path from the literal's entry reaches the drain without having passed the close (or conn == nil)
-			e := kit.PathFromEntry(lit, kit.PathQuery{
-				Target: func(x ssa.Instruction) bool { return x == drain },
-				Stop:   func(x ssa.Instruction) bool { return x == connClose },
-				SkipEdge: func(from, to *ssa.BasicBlock) bool {
-					for _, f := range kit.EdgeFacts(from, to) {
-						if cmp, ok := kit.CanonCmp(f.Cond, f.Pol); ok && cmp.Op == token.EQL && kit.IsNilConst(cmp.Y) && isLoadOfField(cmp.X, connF) {
-							return true
-						}
-					}
-					return false
-				},
-			})
-			okOrder = e == nil
-		}
-		c.Check(okOrder, lit, "transition-order", lit.Pos(), "close(done), then conn.Close(), then the drain of the sent table", "the failure transition drains the sent table before the connection is closed (or signals after closing): a call registered in between is written to a live socket of a dead client and never completed")
-		c.Check(hasClose, lit, "conn-close", lit.Pos(), "the transition closes the connection", "the failure transition no longer closes the connection")
-		c.Check(hasDrain, lit, "drain", lit.Pos(), "the transition drains the sent table", "the failure transition no longer fails the sent calls")
-		for _, s := range callersOf(p, kit.M("region", "*client", "failSentRPCs")) {
-			c.Check(s.Parent() == lit, s.Parent(), "caller-of-failSentRPCs", s.Pos(), "called from the once-guarded transition only", "failSentRPCs called outside the once-guarded transition")
-		}
-	}
+	failureTransition(c)
 
 	// ---- R2 ---------------------------------------------------------------
 	c.StartRule("R2", "whoever removes a call from the sent table completes it on every path", 3)
@@ -329,6 +268,7 @@ func runC03(c *kit.Ctx) {
 		})
 		c.Check(e == nil, fn, "handback-delivered", s.Pos(), "on the non-nil edge the same call is completed with the error", "a non-nil error from trySend can reach an exit without completing the call: "+c.BlockPath(e))
 	}
+	handbackErrorUnchanged(c)
 	// trySend returns non-nil only where it unregistered
 	kit.Instrs(trySend, func(in ssa.Instruction) {
 		r, ok := in.(*ssa.Return)
@@ -480,6 +420,8 @@ func runC03(c *kit.Ctx) {
 		c.Check(found, fn, "refuse-when-closed", fn.Pos(), "select has a <-c.done case that completes the calls with ErrClientClosed", "no <-c.done case completing the calls with ErrClientClosed: calls queued on a dead connection are stranded")
 	}
 
+	unbufferedHandoff(c)
+
 	// ---- R6 ---------------------------------------------------------------
 	c.StartRule("R6", "reader errors are connection failures", 6)
 	readerErrorsAreFatal(c, recv)
@@ -526,49 +468,8 @@ func runC03(c *kit.Ctx) {
 		c.Check(e == nil, dlit, "dial-exits-fail", dlit.Pos(), "every exit of the dial literal either started the reader or called fail", "the dial literal can return without starting the reader and without failing the client: Dial reports success on a dead connection: "+c.BlockPath(e))
 	}
 
-	// a failed (possibly partial) write leaves the stream unusable: it must be a connection failure
-	for _, w := range append(kit.Calls(send, kit.M("region", "*client", "write")), kit.Calls(send, "(*net.Buffers).WriteTo")...) {
-		var errV ssa.Value = w.Value()
-		if w.Common().Signature().Results().Len() == 2 {
-			errV = kit.ExtractOf(w.Value(), 1)
-		}
-		_ = errV
-	}
-	{
-		// every return of send that carries a non-nil error after the registration is a ServerError
-		// except the marshalling error (nothing was written yet)
-		regs := kit.Calls(send, kit.M("region", "*client", "registerRPC"))
-		var firstWrite ssa.Instruction
-		for _, w := range append(kit.Calls(send, kit.M("region", "*client", "write")), kit.Calls(send, "(*net.Buffers).WriteTo")...) {
-			if firstWrite == nil || kit.Dominates(w.(ssa.Instruction), firstWrite) {
-				firstWrite = w.(ssa.Instruction)
-			}
-		}
-		good := len(regs) == 1 && firstWrite != nil
-		if good {
-			kit.Instrs(send, func(in ssa.Instruction) {
-				r, ok := in.(*ssa.Return)
-				if !ok {
-					return
-				}
-				ev := returnedError(r)
-				if ev == nil || kit.IsNilConst(kit.Root(ev)) {
-					return
-				}
-				// returns that can only happen after a write was attempted
-				afterWrite := false
-				for _, w := range append(kit.Calls(send, kit.M("region", "*client", "write")), kit.Calls(send, "(*net.Buffers).WriteTo")...) {
-					if kit.Reaches(w.(ssa.Instruction), r) {
-						afterWrite = true
-					}
-				}
-				if afterWrite && !isServerErrorValue(p, ev) {
-					good = false
-				}
-			})
-		}
-		c.Check(good, send, "write-error-is-fatal", send.Pos(), "every error send returns after it attempted a write is a ServerError (the connection is failed)", "send can report a failed - possibly partial - write with an error that does not fail the connection: later frames are written after a torn one and the stream stays out of sync")
-	}
+	writeErrorIsFatal(c, send)
+	counterAndDeadlineUnderOneLock(c, kit.NewLockEnv(p))
 
 	// ---- R7 ---------------------------------------------------------------
 	c.StartRule("R7", "registration after serialisation, before the write", 3)
@@ -725,4 +626,108 @@ func readerErrorsAreFatal(c *kit.Ctx, recv *ssa.Function) {
 		good := isServerErrorValue(p, ev)
 		c.Check(good, recv, "pre-claim-error", r.Pos(), "error before a call was claimed (read error, timeout, undecodable header, unknown id) is a ServerError: it fails the connection", "the reader returns a non-connection-level error (or nil) before any call was claimed: a read timeout or a broken stream does not fail the connection")
 	})
+}
+
+// writeErrorIsFatal: a failed (possibly partial) write leaves the stream unusable: every error send
+// returns after it attempted a write is a ServerError. Shared by C03.R6 and C05.R6.
+func writeErrorIsFatal(c *kit.Ctx, send *ssa.Function) {
+	p := c.P
+	writes := append(kit.Calls(send, kit.M("region", "*client", "write")), kit.Calls(send, "(*net.Buffers).WriteTo")...)
+	good := len(writes) > 0
+	if good {
+		kit.Instrs(send, func(in ssa.Instruction) {
+			r, ok := in.(*ssa.Return)
+			if !ok {
+				return
+			}
+			ev := returnedError(r)
+			if ev == nil || kit.IsNilConst(kit.Root(ev)) {
+				return
+			}
+			afterWrite := false
+			for _, w := range writes {
+				if kit.Reaches(w.(ssa.Instruction), r) {
+					afterWrite = true
+				}
+			}
+			if afterWrite && !isServerErrorValue(p, ev) {
+				good = false
+			}
+		})
+	}
+	c.Check(good, send, "write-error-is-fatal", send.Pos(), "every error send returns after it attempted a write is a ServerError (the connection is failed)", "send can report a failed - possibly partial - write with an error that does not fail the connection: later frames are written after a torn one and the stream stays out of sync")
+}
+
+// failureTransition: the once-guarded failure transition of a connection: signal, close the socket,
+// then drain the sent table. Shared by C03.R1 and C09.R5.
+func failureTransition(c *kit.Ctx) {
+	p := c.P
+	fail := p.Func("region", "client", "fail")
+	doneF, connF, failOnce := p.Field("region", "client", "done"), p.Field("region", "client", "conn"), p.Field("region", "client", "failOnce")
+	if fail == nil || doneF == nil || connF == nil || failOnce == nil {
+		c.Unk(nil, "failure-transition", token.NoPos, "region.client.fail or its fields done/conn/failOnce not found")
+		return
+	}
+	lit, _ := onceLiteral(fail, failOnce)
+	if lit == nil {
+		c.Bad(fail, "fail-once", fail.Pos(), "fail no longer runs its body under failOnce.Do: the failure transition can run twice", "")
+	} else {
+		c.Funcs[kit.FuncName(lit)] = true
+		for _, fn := range p.Funcs {
+			if enclosingNamed(fn).Pkg == nil || enclosingNamed(fn).Pkg.Pkg.Path() != kit.Module+"/region" {
+				continue
+			}
+			for _, call := range kit.Calls(fn, "builtin.close") {
+				if isLoadOfField(call.Common().Args[0], doneF) {
+					c.Check(fn == lit, fn, "close-done", call.Pos(), "close(c.done) inside failOnce.Do", "close(c.done) outside failOnce.Do: a second close panics, or the signal is given without failing the sent calls")
+				}
+			}
+		}
+		hasClose, hasDrain := false, false
+		var closeDone, connClose, drain ssa.Instruction
+		kit.Instrs(lit, func(in ssa.Instruction) {
+			if call, ok := in.(*ssa.Call); ok {
+				if kit.CalleeName(call) == "(net.Conn).Close" && isLoadOfField(call.Call.Value, connF) {
+					hasClose = true
+					connClose = call
+				}
+				if kit.CalleeName(call) == kit.M("region", "*client", "failSentRPCs") {
+					hasDrain = true
+					drain = call
+				}
+				if kit.CalleeName(call) == "builtin.close" && isLoadOfField(call.Call.Args[0], doneF) {
+					closeDone = call
+				}
+			}
+		})
+		// order: signal, close the connection, then drain. A sender that registers a call after
+		// the drain must find the connection closed (its write fails and it completes the call
+		// itself); draining first leaves a window in which a call is written to a live socket
+		// of a dead client and is never completed.
+		okOrder := closeDone != nil && connClose != nil && drain != nil &&
+			closeDone.Block().Dominates(connClose.Block()) && (closeDone.Block() != connClose.Block() || kit.InstrIndex(closeDone) < kit.InstrIndex(connClose)) &&
+			!kit.Reaches(drain, connClose) && kit.Reaches(connClose, drain)
+		if okOrder {
+			// no path from the literal's entry reaches the drain without having passed the close (or conn == nil)
+			e := kit.PathFromEntry(lit, kit.PathQuery{
+				Target: func(x ssa.Instruction) bool { return x == drain },
+				Stop:   func(x ssa.Instruction) bool { return x == connClose },
+				SkipEdge: func(from, to *ssa.BasicBlock) bool {
+					for _, f := range kit.EdgeFacts(from, to) {
+						if cmp, ok := kit.CanonCmp(f.Cond, f.Pol); ok && cmp.Op == token.EQL && kit.IsNilConst(cmp.Y) && isLoadOfField(cmp.X, connF) {
+							return true
+						}
+					}
+					return false
+				},
+			})
+			okOrder = e == nil
+		}
+		c.Check(okOrder, lit, "transition-order", lit.Pos(), "close(done), then conn.Close(), then the drain of the sent table", "the failure transition drains the sent table before the connection is closed (or signals after closing): a call registered in between is written to a live socket of a dead client and never completed")
+		c.Check(hasClose, lit, "conn-close", lit.Pos(), "the transition closes the connection", "the failure transition no longer closes the connection")
+		c.Check(hasDrain, lit, "drain", lit.Pos(), "the transition drains the sent table", "the failure transition no longer fails the sent calls")
+		for _, s := range callersOf(p, kit.M("region", "*client", "failSentRPCs")) {
+			c.Check(s.Parent() == lit, s.Parent(), "caller-of-failSentRPCs", s.Pos(), "called from the once-guarded transition only", "failSentRPCs called outside the once-guarded transition")
+		}
+	}
 }
